@@ -1,0 +1,43 @@
+//go:build verif
+
+package crlrepository
+
+import (
+	"github.com/gr33nbl00d/caddy-revocation-validator/crl/crlstore"
+)
+
+// VerifEntry is a snapshot of one repository entry for the verification harness.
+type VerifEntry struct {
+	Present   bool
+	Loaded    bool
+	SigFailed bool
+	StoreNil  bool
+	Locked    bool // the entry lock could not be taken for reading (snapshot fields are then unsynchronised reads)
+}
+
+// VerifIdentifiers lists the identifiers currently in the repository.
+func (R *Repository) VerifIdentifiers() []string {
+	return R.getCurrentIdentifiers()
+}
+
+// VerifEntryState returns a snapshot of the entry with the given identifier.
+func (R *Repository) VerifEntryState(identifier string) VerifEntry {
+	entry := R.getEntrySync(identifier)
+	if entry == nil {
+		return VerifEntry{}
+	}
+	locked := !entry.entryLock.TryRLock()
+	if !locked {
+		defer entry.entryLock.RUnlock()
+	}
+	return VerifEntry{Present: true, Loaded: entry.Loaded, SigFailed: entry.LastUpdateSignatureVerifyFailed, StoreNil: entry.CRLStore == nil, Locked: locked}
+}
+
+// VerifStore returns the live store of an entry (nil if there is none).
+func (R *Repository) VerifStore(identifier string) crlstore.CRLStore {
+	entry := R.getEntrySync(identifier)
+	if entry == nil {
+		return nil
+	}
+	return entry.CRLStore
+}
